@@ -131,6 +131,15 @@ HISTORY_QUICK = [
     ('history:replace(orig abcd,[ins sym B];source;[ins sym A];source;[ins sym C])', RP(O('abcd'), (Q, 'S', 'B', None, 1, ['source']), (Q, 'S', 'A', None, 1, ['source']), (Q, 'S', 'C'))),
     ('history:replace(rawstr abc,[sym B];size;[sym A])', RP(RS('abc'), (Q, Q, 'B', None, 1, ['size']), (Q, Q, 'A'))),
 ]
+def _many_inserts(seed, n=24, npos=6, text='abcdefghijkl'):
+    # more replacements than std's small-sort threshold (20) with many equal keys, pushed in scrambled order: insertion order
+    # of equal keys must survive the sort
+    import random
+    rnd = random.Random(seed)
+    return RP(RS(text), *[(p_, p_, chr(65 + i)) for i, p_ in enumerate(rnd.randrange(0, npos) for _ in range(n))])
+
+
+MANY_QUICK = [('replace(rawstr 12 chars,[24 inserts at 6 positions, scrambled #%d])' % sd, _many_inserts(sd)) for sd in (0, 3)]
 REPLACE_THOROUGH = [
     ('replace(orig a;//b,[sym del],[sym Y/])', RP(O('a;\n\nb'), (Q, Q, ''), (Q, Q, 'Y\n'))),
     ('replace(orig sym4,[sym X/])', RP(O('????'), (Q, Q, 'X\n'))),
@@ -273,6 +282,8 @@ def replace_jobs(props):
         if 'C05' in props:
             for t in HISTORY_QUICK:
                 jobs.append(J('tree:' + t[0], 'jobs.streams:tree_job', dict(tree=t[1], props=props, what=['source']), timeout=600))
+            for t in MANY_QUICK:
+                jobs.append(J('tree:' + t[0], 'jobs.streams:tree_job', dict(tree=t[1], props=props, what=['source'], subs=False), timeout=600))
         if tier == 'thorough':
             for t in REPLACE_THOROUGH:
                 jobs.append(J('tree:' + t[0], 'jobs.streams:tree_job', dict(tree=t[1], props=props), required=False, timeout=3000))
